@@ -6,13 +6,18 @@ HERE = os.path.dirname(os.path.dirname(os.path.abspath(__file__)))
 kind, name, props, expect = sys.argv[1:5]
 trip = sys.argv[5:]
 out = ['# properties: %s' % props, '# expect: %s' % expect]
+files = {}
+order = []
 for i in range(0, len(trip), 3):
     f, old, new = trip[i:i+3]
+    if f not in files:
+        files[f] = open(os.path.join('/repo', f)).read(); order.append(f)
+    if files[f].count(old) != 1:
+        sys.exit('pattern occurs %d times in %s: %r' % (files[f].count(old), f, old[:60]))
+    files[f] = files[f].replace(old, new)
+for f in order:
     src = open(os.path.join('/repo', f)).read()
-    if src.count(old) != 1:
-        sys.exit('pattern occurs %d times in %s: %r' % (src.count(old), f, old[:60]))
-    dst = src.replace(old, new)
-    d = difflib.unified_diff(src.splitlines(True), dst.splitlines(True), 'a/' + f, 'b/' + f)
+    d = difflib.unified_diff(src.splitlines(True), files[f].splitlines(True), 'a/' + f, 'b/' + f)
     out.append(''.join(d).rstrip('\n'))
 os.makedirs(os.path.join(HERE, 'selftest', kind), exist_ok=True)
 open(os.path.join(HERE, 'selftest', kind, name + '.diff'), 'w').write('\n'.join(out) + '\n')
